@@ -71,10 +71,15 @@ func New(prop, tier string, seed int64, level string) *Run {
 	if root == "" {
 		root = "/verif"
 	}
+	known := root
+	if o := os.Getenv("VERIF_OUT"); o != "" {
+		// self-test runs against a changed tree write their evidence and witnesses elsewhere
+		root = o
+	}
 	r := &Run{Prop: prop, Tier: tier, Seed: seed, Level: level, Root: root, start: time.Now(),
 		nontr: map[string]bool{}, Counters: map[string]int{}, Extra: map[string]any{}}
 	r.known = &KnownFile{}
-	if b, err := os.ReadFile(filepath.Join(root, "known_findings.json")); err == nil {
+	if b, err := os.ReadFile(filepath.Join(known, "known_findings.json")); err == nil {
 		if err := json.Unmarshal(b, r.known); err != nil {
 			fmt.Fprintf(os.Stderr, "known_findings.json unreadable: %v\n", err)
 			os.Exit(2)
